@@ -1,6 +1,7 @@
 """C16 memory-optimised runs.  DAG kit (values, pointers symbolic), symbolic target set (one or two elements) and a
 symbolic step size that flows into get_calcsteps' block arithmetic and slicing.  Oracle: closure/order from the pointers."""
 from kit import *  # noqa
+use_formula_memo()
 import os as _os
 
 N = 3
